@@ -550,6 +550,7 @@ void reb_integrator_trace_part1(struct reb_simulation* r){
         reb_simulation_warning(r,"TRACE has it's own gravity routine. Gravity routine set by the user will be ignored.");
     }
     r->gravity = REB_GRAVITY_TRACE;
+    r->gravity_ignore_terms = 0; // The FULL pericentre prescriptions use REB_GRAVITY_BASIC. No term may be left out (another integrator might have been used before).
     ri_trace->mode = REB_TRACE_MODE_NONE; // Do not calculate gravity in-between timesteps. TRACE will call reb_update_acceleration itself.
 
 }
